@@ -722,6 +722,12 @@ func ResumeTamper(args []string) {
 		cases = append(cases, tamperCase{Kind: k, Stream: 1, Tail: 1}, tamperCase{Kind: k, Stream: 2, Tail: 0})
 	}
 	cases = append(cases, tamperCase{Kind: "datafile-deleted", Stream: 1, Tail: 1}, tamperCase{Kind: "datafile-deleted", Stream: 2, Tail: 0})
+	// the same lost data file, and the first resumed attempt is killed while it handles FileBegin (a real receiver
+	// process SIGKILLs itself at the k-th recv.file.sized: the output file exists again in full length); then a second attempt
+	for k := 1; k <= 2; k++ {
+		cases = append(cases, tamperCase{Kind: "datafile-deleted-killed-at-begin", Arg2: k, Stream: 1, Tail: 1}, tamperCase{Kind: "datafile-deleted-killed-at-begin", Arg2: k, Stream: 2, Tail: 0},
+			tamperCase{Kind: "datafile-truncated-killed-at-begin", Arg: chunk + 1, Arg2: k, Stream: 1, Tail: 0})
+	}
 	for c := 0; c <= 8; c++ {
 		for _, d := range []int{-1, 0, 1} {
 			n := c*chunk + d
@@ -856,6 +862,17 @@ func ResumeTamper(args []string) {
 			os.Remove(dp)
 		case "datafile-truncated":
 			os.Truncate(dp, int64(c.Arg))
+		case "datafile-deleted-killed-at-begin", "datafile-truncated-killed-at-begin":
+			if c.Kind == "datafile-deleted-killed-at-begin" {
+				os.Remove(dp)
+			} else {
+				os.Truncate(dp, int64(c.Arg))
+			}
+			self, _ := os.Executable()
+			r1 := oneRun(self, src, out, m, src, c.Stream, chunk, c.Tail, killPlan{Point: "recv.file.sized", K: c.Arg2}, 20*time.Second)
+			if !r1.Killed {
+				res.AddDrift(map[string]any{"why": "the first attempt was not killed at recv.file.sized", "case": c, "child": trunc(r1.ChildOut)})
+			}
 		case "torn-chunk":
 			f, _ := os.OpenFile(dp, os.O_RDWR, 0644)
 			junk := make([]byte, chunk-c.Arg2)
